@@ -194,6 +194,15 @@ class Sym:
     def note(self, name: str, value: Any) -> None:
         self.vars[name] = value
 
+    def realize(self, v: Any) -> Any:
+        """Make a value concrete (one path per value, chosen and enumerated by the solver)."""
+        return deep_realize(v)
+
+    def untraced(self):
+        """Context in which CrossHair does not intercept calls (for concrete calls into C helpers that
+        CrossHair would otherwise replace by its own models, e.g. codecs)."""
+        return NoTracing()
+
 
 class Conc:
     """Concrete provider used for replay (no CrossHair involved)."""
@@ -238,6 +247,14 @@ class Conc:
 
     def note(self, name, value):
         self.vars[name] = value
+
+    def realize(self, v):
+        return v
+
+    def untraced(self):
+        import contextlib
+
+        return contextlib.nullcontext()
 
 
 def jsonable(v: Any) -> Any:
